@@ -12,7 +12,10 @@ RULE = ("pairs (prefix history of 1-4 requests by up to 3 clients over all opera
         "before the probe (same harness clock); response bytes and final raw-table snapshots must be "
         "equal. Probes are biased to identifier-less requests (ID placeholder), to another identity "
         "and another protocol version than the prefix. non-trivial = the prefix contains a successful "
-        "creating operation, or a different version or identity than the probe")
+        "creating operation, or a different version or identity than the probe.  Session pairs: the "
+        "same over ONE KmipSession (prefix requests with their own Maximum Response Size / batch "
+        "options, chunked delivery), reference = the probe on a new session of a fresh engine on a "
+        "byte copy taken when the last prefix response had been sent")
 ASSUMPTIONS = ["probe responses are deterministic given the database and the clock (IVs are always "
                "supplied; key material created by the probe is masked in the snapshot comparison)",
                "operation policies are fixed for the run (they are not request state)"]
@@ -145,7 +148,105 @@ def run_case(spec):
     return buckets, nontrivial, classes
 
 
+# ---------------------------------------------------------------- the same through ONE session
+MAXES = [None, None, None, 0, 40, 152, 300, 568, 1000, 2 ** 31 - 1]
+
+
+@st.composite
+def gen_session_case(draw):
+    """Prefix and probe travel over ONE connection (one KmipSession, one identity); the prefix
+    requests carry header options of their own (Maximum Response Size, batch options) which must
+    not outlive them.  Reference: the probe alone on a new session of a fresh engine opened on a
+    byte copy of the database taken when the last prefix response had been sent."""
+    _, idx = store.standard_template()
+    who = draw(st.sampled_from(USERS))
+    n = draw(st.integers(1, 4))
+    reqs = []
+    for k in range(n + 1):
+        r = draw(gen_req(idx, probe=(k == n)))
+        r["who"], r["groups"] = who, None
+        mx = draw(st.sampled_from(MAXES if k < n else [None, None, None, 568, 2 ** 31 - 1]))
+        if mx is not None:
+            r["max"] = mx
+        reqs.append(r)
+    return {"mode": "session", "who": who, "prefix": reqs[:-1], "probe": reqs[-1],
+            "chunks": draw(st.sampled_from([None, None, [7], [1, 64], [8, 8, 1000]]))}
+
+
+def _frame(req):
+    req = dict(req)
+    req.pop("who", None)
+    req.pop("groups", None)
+    return H.encode_request(req)
+
+
+def run_session_case(spec):
+    srv, idx = store.fresh_server()
+    buckets, classes = [], ["mode:session"]
+    box = {"fresh": None}
+    try:
+        H.CLOCK.now = 1_700_000_200
+        try:
+            frames = [_frame(r) for r in spec["prefix"]]
+            pframe = _frame(spec["probe"])
+        except Exception:
+            return [], False, ["session-unencodable"]
+        nprefix = len(frames)
+
+        def hook(conn):
+            plain = conn.sendall
+
+            def sendall(b):
+                plain(b)
+                if len(conn.sent) == nprefix and box["fresh"] is None:
+                    box["fresh"] = srv.fresh_engine_on_copy()
+            conn.sendall = sendall
+
+        conn, errors = srv.session(b"".join(frames) + pframe, cn=spec["who"],
+                                   chunks=spec.get("chunks"), conn_hook=hook,
+                                   max_loops=nprefix + 4)
+        if errors or len(conn.sent) != nprefix + 1 or box["fresh"] is None:
+            # the session did not answer every frame once: C12's business, not judged here
+            return [], False, classes + ["session-irregular"]
+        fresh = box["fresh"]
+        conn2, errors2 = fresh.session(pframe, cn=spec["who"], max_loops=4)
+        if errors2 or len(conn2.sent) != 1:
+            return [], False, classes + ["session-irregular-fresh"]
+        probe = spec["probe"]
+        cls = "probe:" + probe["items"][0]["op"]
+        classes.append(cls)
+        a, b = conn.sent[-1], conn2.sent[0]
+        if a != b:
+            try:
+                pa = H.response_plain(a, tuple(probe["v"]))
+                pb = H.response_plain(b, tuple(probe["v"]))
+            except Exception:
+                pa, pb = a.hex()[:200], b.hex()[:200]
+            if pa != pb:
+                buckets.append(("C11|session|response-differs|" + cls,
+                                "probe=%r\n after %d earlier requests on the connection: %r\n on a new "
+                                "connection to a fresh engine: %r" % (probe, nprefix, pa, pb)))
+        try:
+            ma = hist.random_value_uids(H.response_plain(a, tuple(probe["v"])))
+            mb = hist.random_value_uids(H.response_plain(b, tuple(probe["v"])))
+        except Exception:
+            ma = mb = []
+        sa, sb = hist.snapshot(srv, ma), hist.snapshot(fresh, mb)
+        if sa != sb:
+            buckets.append(("C11|session|final-store-differs|" + cls, "\n".join(hist.diff(sa, sb))))
+        if any("max" in r for r in spec["prefix"]):
+            classes.append("session:prefix-carried-maximum-response-size")
+        nontrivial = nprefix >= 1
+    finally:
+        srv.close()
+        if box["fresh"] is not None:
+            box["fresh"].close()
+    return buckets, nontrivial, classes
+
+
 def replay(spec):
+    if spec.get("mode") == "session":
+        return run_session_case(spec)[0]
     return run_case(spec)[0]
 
 
@@ -157,6 +258,12 @@ def worker(n, seed):
         col.record(spec, nontrivial=nt, classes=cl, buckets=b)
 
     core.draw_examples(gen_case(), n, seed, one)
+
+    def two(spec):
+        b, nt, cl = run_session_case(spec)
+        col.record(spec, nontrivial=nt, classes=cl, buckets=b)
+
+    core.draw_examples(gen_session_case(), max(1, n // 3), core.derive_seed(seed, "session"), two)
     return col
 
 
